@@ -424,7 +424,15 @@ class AsyncFIXConnection:
                         self._heartbeat_period - 1, self._heartbeat_period / 2
                     ):
                         if not self._test_req_id:
-                            await self.send_test_req()
+                            try:
+                                await asyncio.wait_for(
+                                    self.send_test_req(),
+                                    max(1.0, self._heartbeat_period),
+                                )
+                            except asyncio.TimeoutError:
+                                # a peer that does not read either (drain() never
+                                #  returns): the timeouts below still decide
+                                pass
                         self._message_last_time = tm
 
                 if (
